@@ -17,6 +17,21 @@ package main
 //	    (file n, OUTSIDE the root — a violation whatever the model says), comma separated.
 //	    A string starting with "@" stands for the absolute directory B followed by the rest.
 //	I …  the same through the interpreter: `import "<path>" as x` with that locator.
+//	J <cwd> <files+modules> <root> <rootpos> <srcname> <path>
+//	    the import statement `import "<path>" as x` in an entry program parsed under the source
+//	    NAME <srcname> (plain, with directories, starting with "..", absolute, equal to a file
+//	    outside the root), with a locator rooted at <root>. The file list also names MODULE files
+//	    ("<pos>><inner>": the file at <pos> contains `import "<inner>" as y; p := y.p`), so an
+//	    import may lead to a nested import whose source name is the import path. Result E/I<n>/O<n>
+//	    of the sentinel finally reached. Model: every import statement resolves its path alone
+//	    through the CONFIGURED locator; the source name has no influence.
+//	T <cwd> <files> <dir> <modelroot> <rootpos> <pre|~> <depth> <alphabet>
+//	    the real cli/tool: CLIInterpreter{Dir: <dir>}.CreateRuntimeProvider, then an entry file
+//	    with the import statement loaded by LoadInitialFile, for every path as in R. <dir> is an
+//	    existing directory, a MISSING one, a DANGLING symlink, "", "." or a symlink to a directory
+//	    (then <modelroot> is the link's target spelled lexically; symlinks are otherwise out of
+//	    scope). Model: the locator's root is the configured string itself — a missing / dangling
+//	    root never falls back to another directory: every import fails.
 
 import (
 	"fmt"
@@ -26,6 +41,7 @@ import (
 	"strings"
 	"time"
 
+	"github.com/krotik/ecal/cli/tool"
 	"github.com/krotik/ecal/interpreter"
 	"github.com/krotik/ecal/parser"
 	"github.com/krotik/ecal/util"
@@ -50,6 +66,27 @@ var c17Files = []string{
 	"nm",     // grandparent
 	"abs/nm", // somewhere else, addressed absolutely
 	"abs/root/nm",
+}
+
+// module files: position and the path their import statement names
+var c17Modules = [][2]string{
+	{"top/root/chain1", "./nm"},
+	{"top/root/sub/chain2", "./nm"},
+	{"top/root/sub/chain3", "../nm"},
+	{"top/root/sub/chain4", "sub/nm"},
+	{"top/root/a.b/chain5", "./../nm"},
+	{"top/root/chain6", "sub/chain2"},
+	{"top/root/sub/chain7", "./chain2"},
+	{"top/chainout", "./nm"},
+	{"top/root/sub/sub/chain8", "./root/nm"},
+}
+
+func c17FilesWithModules() string {
+	all := append([]string{}, c17Files...)
+	for _, m := range c17Modules {
+		all = append(all, m[0]+">"+m[1])
+	}
+	return strings.Join(all, ",")
 }
 
 var c17Alphabet = []string{"nm", ".", "..", "", "/nm", "a.b", "a b", "..x", "rootX", "root"}
@@ -91,6 +128,15 @@ func c17Setup() {
 		check(os.WriteFile(p, []byte("p := \""+f+"\"\n"), 0644))
 	}
 	check(os.MkdirAll(filepath.Join(c17Base, "top/root/empty"), 0755))
+	for _, m := range c17Modules {
+		p := filepath.Join(c17Base, m[0])
+		check(os.MkdirAll(filepath.Dir(p), 0755))
+		check(os.WriteFile(p, []byte("import \""+m[1]+"\" as y\np := y.p\n"), 0644))
+	}
+	// symbolic links used only as configured roots of T cases (their names are in no path alphabet)
+	check(os.Symlink("nowhere", filepath.Join(c17Base, "top/dlink")))
+	check(os.Symlink("root/sub", filepath.Join(c17Base, "top/lnin")))
+	check(os.Symlink("../abs", filepath.Join(c17Base, "top/lnout")))
 }
 
 func c17Subst(s string) string {
@@ -127,9 +173,14 @@ func c17Resolve(root, path, rootpos string) string {
 }
 
 func c17Import(root, path, rootpos string) string {
+	return c17ImportNamed("t", root, path, rootpos)
+}
+
+// c17ImportNamed evaluates the import statement in a program parsed under the source name srcname.
+func c17ImportNamed(srcname, root, path, rootpos string) string {
 	erp := interpreter.NewECALRuntimeProvider("t", &util.FileImportLocator{Root: root}, &memLog{})
 	src := "import \"" + path + "\" as x\n"
-	ast, err := parser.ParseWithRuntime("t", src, erp)
+	ast, err := parser.ParseWithRuntime(srcname, src, erp)
 	if err != nil {
 		return "PARSE-ERROR " + oneLine(err.Error())
 	}
@@ -150,6 +201,39 @@ func c17Import(root, path, rootpos string) string {
 		return fmt.Sprintf("X-NOT-MAP %T", x)
 	}
 	return c17Classify(fmt.Sprint(m["p"]), rootpos)
+}
+
+// c17Tool drives the real command line interpreter: the configured directory goes through
+// CLIInterpreter.CreateRuntimeProvider, the import statement through an entry file and LoadInitialFile.
+func c17Tool(tin *tool.CLIInterpreter, path, rootpos string) string {
+	entry := filepath.Join(c17Base, "t_entry.ecal")
+	check(os.WriteFile(entry, []byte("import \""+path+"\" as x\n"), 0644))
+	tin.EntryFile = entry
+	err := tin.LoadInitialFile(tin.RuntimeProvider.NewThreadID())
+	tin.RuntimeProvider.Processor.Finish()
+	if err != nil {
+		CountRun("tool-import-error")
+		return "E"
+	}
+	x, ok, _ := tin.GlobalVS.GetValue("x")
+	if !ok {
+		return "NO-X"
+	}
+	m, ok := x.(map[interface{}]interface{})
+	if !ok {
+		return fmt.Sprintf("X-NOT-MAP %T", x)
+	}
+	return c17Classify(fmt.Sprint(m["p"]), rootpos)
+}
+
+func c17NewTool(dir string) (*tool.CLIInterpreter, string) {
+	tin := tool.NewCLIInterpreter()
+	lf, ll := "", "Error"
+	tin.Dir, tin.LogFile, tin.LogLevel = &dir, &lf, &ll
+	if err := tin.CreateRuntimeProvider("c17"); err != nil {
+		return nil, "CREATE-ERROR " + oneLine(err.Error())
+	}
+	return tin, ""
 }
 
 func c17Ext(alpha []string, depth int) [][]string {
@@ -177,7 +261,20 @@ func c17Run(payload string) string {
 		}
 		return hx(filepath.Clean(a)) + " " + hx(filepath.Join(a, b)) + " " + r
 	}
-	if len(f) != 8 || (f[0] != "R" && f[0] != "I") {
+	if f[0] == "J" && len(f) == 7 {
+		check(os.Chdir(filepath.Join(c17Base, unhx(f[1]))))
+		return c17ImportNamed(c17Subst(unhx(f[5])), c17Subst(unhx(f[3])), unhx(f[6]), unhx(f[4]))
+	}
+	var tin *tool.CLIInterpreter
+	if f[0] == "T" && len(f) == 9 {
+		check(os.Chdir(filepath.Join(c17Base, unhx(f[1]))))
+		var msg string
+		if tin, msg = c17NewTool(c17Subst(unhx(f[3]))); tin == nil {
+			return msg
+		}
+		f = append(f[:4], f[5:]...) // drop <modelroot>: from here on the layout of R
+	}
+	if len(f) != 8 || (f[0] != "R" && f[0] != "I" && f[0] != "T") {
 		return "bad-payload"
 	}
 	cwd, root, rootpos := unhx(f[1]), c17Subst(unhx(f[3])), unhx(f[4])
@@ -200,6 +297,8 @@ func c17Run(payload string) string {
 		}
 		if f[0] == "R" {
 			out = append(out, c17Resolve(root, path, rootpos))
+		} else if f[0] == "T" {
+			out = append(out, c17Tool(tin, path, rootpos))
 		} else {
 			out = append(out, c17Import(root, path, rootpos))
 		}
@@ -254,6 +353,87 @@ func init() {
 					for _, p := range []string{"@/" + f, "@/top/root/../../" + f, "@//" + f + "/."} {
 						g.Count("directed absolute")
 						g.Emit(rcase("R", r, p, true, 0))
+					}
+				}
+			}
+			// source facts not positively established (or refuted): amplify the T and J cases
+			amplify := c17FactsNeedAmplification()
+			if amplify {
+				g.Count("amplified (locator root fact not established)")
+			}
+			// (d) the real cli/tool: configured directory -> CreateRuntimeProvider -> entry file -> import
+			tcase := func(cwd, dir, modelroot, pos, pre string, hasPre bool, depth int) string {
+				p := "~"
+				if hasPre {
+					p = hx(pre)
+				}
+				a := alpha
+				if depth == 0 {
+					a = "-"
+				}
+				return strings.Join([]string{"T", hx(cwd), files, hx(dir), hx(modelroot), hx(pos), p, strconv.Itoa(depth), a}, " ")
+			}
+			type troot struct{ cwd, dir, model, pos, what string }
+			troots := []troot{
+				{"top", "root", "root", "top/root", "existing"},
+				{"top", "@/top/root", "@/top/root", "top/root", "existing"},
+				{"top", "root/sub/", "root/sub/", "top/root/sub", "existing"},
+				{"top", "missing", "missing", "top/missing", "missing"},
+				{"top", "@/top/missing", "@/top/missing", "top/missing", "missing"},
+				{"top", "root/missing/deeper", "root/missing/deeper", "top/root/missing/deeper", "missing"},
+				{"top/root", "../missing", "../missing", "top/missing", "missing"},
+				{"top", "root/nm", "root/nm", "top/root/nm", "missing (a file, not a directory)"},
+				{"top", "dlink", "dlink", "top/dlink", "dangling symlink"},
+				{"top", "@/top/dlink", "@/top/dlink", "top/dlink", "dangling symlink"},
+				{"top", "dlink/root", "dlink/root", "top/dlink/root", "dangling symlink"},
+				{"top/root", "../dlink", "../dlink", "top/dlink", "dangling symlink"},
+				{"top", "lnin", "root/sub", "top/root/sub", "symlink to a directory (inside)"},
+				{"top", "lnout", "../abs", "abs", "symlink to a directory (outside)"},
+				{"top", "", "", "top", "empty"},
+				{"top", ".", ".", "top", "dot"},
+				{"top/root", ".", ".", "top/root", "dot"},
+			}
+			tpaths := []string{"nm", "./nm", "../nm", "root/nm", "../top/nm", "@/top/nm", "@/nm", "sub/nm", "../root/nm", "private", "a.b/nm", "/nm", "../../nm", "rootX/nm", "../rootX/nm"}
+			for _, r := range troots {
+				for _, p := range tpaths {
+					g.Count("tool " + r.what)
+					g.Emit(tcase(r.cwd, r.dir, r.model, r.pos, p, true, 0))
+				}
+				maxD := 1
+				if g.Thorough() || amplify {
+					maxD = 2
+				}
+				for d := 1; d <= maxD; d++ {
+					g.Count("tool " + r.what)
+					g.Emit(tcase(r.cwd, r.dir, r.model, r.pos, "", false, d))
+				}
+				if amplify {
+					for _, a := range c17Alphabet {
+						g.Count("tool " + r.what)
+						g.Emit(tcase(r.cwd, r.dir, r.model, r.pos, a, true, 2))
+					}
+				}
+			}
+			// (e) import statements in programs parsed under many source names, nested imports
+			srcnames := []string{"main.ecal", "sub/x.ecal", "../x.ecal", "a/../../x.ecal", "@/abs/x.ecal", "../nm", "../rootX/nm",
+				"@/abs/nm", "../../x.ecal", "/x.ecal", "", "./x.ecal", "../root/x.ecal", "sub/../x.ecal", "../../abs/x.ecal", "rootX/x.ecal", "sub/sub/x.ecal"}
+			ipaths := []string{"nm", "./nm", "./sub/nm", "sub/nm", "../nm", "./../nm", "./root/nm", "./rootX/nm", "./a.b/nm", "./config",
+				"chain1", "./chain1", "sub/chain2", "./sub/chain2", "sub/chain3", "sub/chain4", "./sub/../chain1", "a.b/chain5", ".//nm",
+				"./", ".", "./..x", "./a b", "chain6", "./chain6", "sub/chain7", "./sub/chain7", "chainout", "./chainout", "sub/sub/chain8",
+				"./top/nm", "./abs/nm", "./x.ecal", "root/chain1", "./root/chain1"}
+			if amplify || g.Thorough() {
+				for _, a := range c17Alphabet {
+					for _, b := range c17Alphabet {
+						ipaths = append(ipaths, "./"+a+"/"+b)
+					}
+				}
+			}
+			filesM := hx(c17FilesWithModules())
+			for _, r := range c17Roots {
+				for _, sn := range srcnames {
+					for _, ip := range ipaths {
+						g.Count("import under a source name")
+						g.Emit(strings.Join([]string{"J", hx(r.cwd), filesM, hx(r.root), hx(r.pos), hx(sn), hx(ip)}, " "))
 					}
 				}
 			}
@@ -397,6 +577,7 @@ func init() {
 				g.Emit(rcase("I", r, strings.Join(segs, "/"), true, 0))
 			}
 		},
-		Run: c17Run,
+		Run:  c17Run,
+		Tool: c17ToolMain,
 	})
 }
